@@ -59,8 +59,10 @@ def tu_root(name, intype, expr, extra_params=''):
 
 
 # ------------------------------------------------------------------ prelude
-def prelude(tracking):
+def prelude(tracking, base='_b0'):
     p = '''
+#define INB(in) ((in)->%s)   /* the memory_input_base sub-object */
+''' % base + '''
 #include "spec_enc.h"
 size_t g_n;                 /* ghost: size of the input window object */
 _Bool vf_canary;            /* always 0: clauses `X || vf_canary` must FAIL when X is reachable-false */
@@ -68,31 +70,31 @@ _Bool vf_canary;            /* always 0: clauses `X || vf_canary` must FAIL when
 #define OFF(p) __CPROVER_POINTER_OFFSET(p)
 #define OLD(x) __CPROVER_old(x)
 #define RET __CPROVER_return_value
-#define IN_END(in) ((in)->_b0.m_end)
+#define IN_END(in) (INB(in).m_end)
 ''' % MAXN
     if tracking == 'eager':
         p += '''
-#define IN_BEGIN(in) ((in)->_b0.m_begin)
-#define IT(in) ((in)->_b0.m_current)
-#define CUR(in) ((in)->_b0.m_current.data)
+#define IN_BEGIN(in) (INB(in).m_begin)
+#define IT(in) (INB(in).m_current)
+#define CUR(in) (INB(in).m_current.data)
 /* assigns targets are listed field by field: havocking the struct as a whole makes CBMC lose the points-to set of .data */
-#define IT_FIELDS(in) (in)->_b0.m_current, (in)->_b0.m_current.data, (in)->_b0.m_current.byte, (in)->_b0.m_current.line, (in)->_b0.m_current.column
-#define CNT_OK(in) ((in)->_b0.m_current.line>=1 && (in)->_b0.m_current.column>=1 \\
-   && (in)->_b0.m_current.byte < ((size_t)1<<62) && (in)->_b0.m_current.line < ((size_t)1<<62) && (in)->_b0.m_current.column < ((size_t)1<<62))
-#define CNT_POS(in) ((in)->_b0.m_current.line>=1 && (in)->_b0.m_current.column>=1)
-#define ITER_UNCHANGED(in) (CUR(in)==OLD(CUR(in)) && (in)->_b0.m_current.byte==OLD((in)->_b0.m_current.byte) \\
-   && (in)->_b0.m_current.line==OLD((in)->_b0.m_current.line) && (in)->_b0.m_current.column==OLD((in)->_b0.m_current.column))
+#define IT_FIELDS(in) INB(in).m_current, INB(in).m_current.data, INB(in).m_current.byte, INB(in).m_current.line, INB(in).m_current.column
+#define CNT_OK(in) (INB(in).m_current.line>=1 && INB(in).m_current.column>=1 \\
+   && INB(in).m_current.byte < ((size_t)1<<62) && INB(in).m_current.line < ((size_t)1<<62) && INB(in).m_current.column < ((size_t)1<<62))
+#define CNT_POS(in) (INB(in).m_current.line>=1 && INB(in).m_current.column>=1)
+#define ITER_UNCHANGED(in) (CUR(in)==OLD(CUR(in)) && INB(in).m_current.byte==OLD(INB(in).m_current.byte) \\
+   && INB(in).m_current.line==OLD(INB(in).m_current.line) && INB(in).m_current.column==OLD(INB(in).m_current.column))
 /* every rule keeps the counters within what the consumed bytes allow (consequence of RC-POS) */
-#define CNT_BOUNDED_BY(in, b0, l0, c0, off0) ((in)->_b0.m_current.byte == (b0) + (OFF(CUR(in)) - (off0)) \
-   && (in)->_b0.m_current.line >= (l0) && (in)->_b0.m_current.line <= (l0) + (OFF(CUR(in)) - (off0)) \
-   && (in)->_b0.m_current.column >= 1 && (in)->_b0.m_current.column <= (c0) + (OFF(CUR(in)) - (off0)))
+#define CNT_BOUNDED_BY(in, b0, l0, c0, off0) (INB(in).m_current.byte == (b0) + (OFF(CUR(in)) - (off0)) \
+   && INB(in).m_current.line >= (l0) && INB(in).m_current.line <= (l0) + (OFF(CUR(in)) - (off0)) \
+   && INB(in).m_current.column >= 1 && INB(in).m_current.column <= (c0) + (OFF(CUR(in)) - (off0)))
 #define CNT_BOUNDED(in) CNT_BOUNDED_BY(in, OLD(BYTE(in)), OLD(LINE(in)), OLD(COL(in)), OFF(OLD(CUR(in))))
 #define CNT_BOUNDED_LOOP(in) CNT_BOUNDED_BY(in, __CPROVER_loop_entry(BYTE(in)), __CPROVER_loop_entry(LINE(in)), __CPROVER_loop_entry(COL(in)), OFF(__CPROVER_loop_entry(CUR(in))))
 #define CNT_LOOP_OK(in) (CNT_BOUNDED_BY(in, g_e_byte, g_e_line, g_e_col, g_e_off) && g_e_byte < ((size_t)1<<62) && g_e_line < ((size_t)1<<62) && g_e_col < ((size_t)1<<62))   /* relative to the entry iterator of the combinator */
-#define CNT_LT63(in) ((in)->_b0.m_current.byte < ((size_t)1<<63) && (in)->_b0.m_current.line < ((size_t)1<<63) && (in)->_b0.m_current.column < ((size_t)1<<63))
-#define LINE(in) ((in)->_b0.m_current.line)
-#define COL(in) ((in)->_b0.m_current.column)
-#define BYTE(in) ((in)->_b0.m_current.byte)
+#define CNT_LT63(in) (INB(in).m_current.byte < ((size_t)1<<63) && INB(in).m_current.line < ((size_t)1<<63) && INB(in).m_current.column < ((size_t)1<<63))
+#define LINE(in) (INB(in).m_current.line)
+#define COL(in) (INB(in).m_current.column)
+#define BYTE(in) (INB(in).m_current.byte)
 /* RC-POS: counters after consuming the bytes [old cursor, new cursor), at most 8 of them */
 #define POS_AGREE(in, eolch) ( BYTE(in)==OLD(BYTE(in)) + (OFF(CUR(in))-OFF(OLD(CUR(in)))) \\
    && LINE(in)==vf_pos_line(OLD(CUR(in)), OFF(CUR(in))-OFF(OLD(CUR(in))), OLD(LINE(in)), eolch) \\
@@ -100,10 +102,10 @@ _Bool vf_canary;            /* always 0: clauses `X || vf_canary` must FAIL when
 '''
     else:
         p += '''
-#define IN_BEGIN(in) ((in)->_b0.m_begin.data)
-#define IT(in) ((in)->_b0.m_current)
-#define CUR(in) ((in)->_b0.m_current)
-#define IT_FIELDS(in) (in)->_b0.m_current
+#define IN_BEGIN(in) (INB(in).m_begin.data)
+#define IT(in) (INB(in).m_current)
+#define CUR(in) (INB(in).m_current)
+#define IT_FIELDS(in) INB(in).m_current
 #define CNT_OK(in) 1
 #define CNT_POS(in) 1
 #define CNT_BOUNDED(in) 1
@@ -237,6 +239,15 @@ def parse_stub(fi):
     return int(m.group(1)), int(m.group(2)), int(m.group(3))   # A: 1=action 0=nothing ; M: 0=required 1=optional
 
 
+def parse_stub_ac(fi):
+    """(Action template, Control template) names of an opaque sub-rule instantiation"""
+    import re
+    m = re.search(r'vf::RM?<\d+>::match<\(tao::pegtl::apply_mode\)\d, \(tao::pegtl::rewind_mode\)\d, ([\w:]+), ([\w:]+), ', fi['pretty'])
+    if not m:
+        return None, None
+    return m.group(1), m.group(2)
+
+
 def rule_stub(spec, param='in'):
     """returns a callable(fi)->Contract implementing the oracle stub for sub-rule i under the
     operator automaton `spec`: spec[i] = dict(A=expected apply mode or None, next_ok, next_fail,
@@ -256,6 +267,12 @@ def rule_stub(spec, param='in'):
             c.add(R('%d == %s' % (a, s['A']), 'stub-apply-mode', ('C04', 'C01')))
         if s.get('M') is not None:
             c.add(R('%d == %s' % (m, s['M']), 'stub-rewind-mode', ('C02',)))
+        if s.get('action') is not None or s.get('control') is not None:
+            act, ctl = parse_stub_ac(fi)
+            if s.get('action') is not None:
+                c.add(R('1' if act == s['action'] else '0', 'stub-called-with-the-action-class-%s' % s['action'].split('::')[-1], ('C13', 'C04')))
+            if s.get('control') is not None:
+                c.add(R('1' if ctl == s['control'] else '0', 'stub-called-with-the-control-class-%s' % s['control'].split('::')[-1], ('C13',)))
         if s.get('at_entry'):
             c.add(R('AT_ENTRY(%s)' % param, 'stub-at-entry-iterator', ('C01', 'C02')))
         for extra in s.get('requires', []):
